@@ -36,13 +36,14 @@ Theorem C09_invert_partition : forall r n, 0 <= n -> within n r ->
 Proof. exact invert_linear_partition. Qed.
 Print Assumptions C09_invert_partition.
 
-(* the circular inversion: for every region that covers something, inside
-   [0,n), InvertCircular succeeds and the regions it returns cover, together
+(* the circular inversion: for every region inside [0,n) -- also one that
+   covers nothing: before the fix 09ea791 the code panicked there, and this
+   theorem carried the hypothesis minimize r <> [] -- InvertCircular succeeds and the regions it returns cover, together
    with the minimized input, every position of [0,n) exactly once (rcountL counts
    the segments of nested regions); when the input touches neither end of the
    sequence the gap across the origin is a single region reading the last gap
    and then the first *)
-Theorem C09_invert_circular_partition : forall r n, 0 <= n -> within n r -> minimize r <> [] ->
+Theorem C09_invert_circular_partition : forall r n, 0 <= n -> within n r ->
   exists out, invert_circular r n = Ok out /\
     forall x, 0 <= x < n -> (countc (minimize r) x + rcountL out x = 1)%nat.
 Proof. exact invert_circular_partition. Qed.
